@@ -11,7 +11,8 @@
    Model/RpqWake.v adds which parked consumer the ready channel actually wakes (fibre wakes one
    waiter per push and does not pass a wake-up on when a notified recv future is dropped):
    C08_wake_cancel_refuted is the resulting genuine lost wake-up, C08_wake_no_lost_wakeup the
-   guarantee outside that class.  Model/WgWait.v is WaitGroup::wait against done(). *)
+   guarantee outside that class.  Model/WgWait.v is WaitGroup::wait against done() (the code after
+   its fix: commit; the pinned-commit order is kept as a refuted legacy witness). *)
 From RZ Require Import Base.Prelude Model.Rpq Model.RpqWake Model.WgWait.
 From RZ Require Import Proofs.RpqProofs Proofs.RpqWakeProofs Proofs.WgWaitProofs.
 
@@ -126,19 +127,29 @@ Proof. exact wake_no_lost_wakeup. Qed.
 Theorem C08_wake_run_reach : forall c es s w, reach c s -> reach c (fst (wrun c es (s, w))).
 Proof. exact wrun_reach. Qed.
 
-(* ---- WaitGroup::wait against done() ---- *)
-(* KNOWN FINDING C08-waitgroup-lost-wakeup *)
+(* ---- WaitGroup::wait against done() ----
+   `g0 true` is the code after the fix: commit (Notified future created before the count check);
+   `g0 false` is the order at the pinned commit, kept as the refuted witness. *)
+(* headline: on EVERY schedule of add()/done() steps the waiter never sleeps with the count at zero
+   and no notify outstanding *)
+Theorem C08_wg_fixed_safe : forall xs, glost (grun xs (g0 true)) = false.
+Proof. exact wg_fixed_safe. Qed.
+(* ... so whenever it cannot move while the count is zero, it has returned *)
+Theorem C08_wg_fixed_poll_returns : forall xs, let s := grun xs (g0 true) in
+  g_count s = 0 -> g_pend s = 0 -> gstep s = None -> g_pc s = GDone.
+Proof. exact wg_fixed_poll_returns. Qed.
+(* and a parked waiter returns within its next three steps once the count is zero *)
+Theorem C08_wg_proceeds : forall s seen, GJ s -> g_fixed s = true -> g_pc s = GAwait seen ->
+  g_count s = 0 -> g_pend s = 0 -> g_pc (grun [GW; GW; GW] s) = GDone.
+Proof. exact wg_proceeds. Qed.
+(* legacy (fixed finding C08-waitgroup-lost-wakeup): the old order loses the wake-up ... *)
 Theorem C08_wg_lost_wakeup_refuted :
   exists xs, glost (grun xs (g0 false)) = true /\ gstep (grun xs (g0 false)) = None /\
              g_count (grun xs (g0 false)) = 0.
 Proof. exact wg_lost_wakeup_refuted. Qed.
+(* ... exactly in the window between the check and the creation of the future *)
 Theorem C08_wg_safe_outside : forall xs, ggap_free (g0 false) xs -> glost (grun xs (g0 false)) = false.
 Proof. exact wg_safe_outside. Qed.
-Theorem C08_wg_fixed_safe : forall xs, glost (grun xs (g0 true)) = false.
-Proof. exact wg_fixed_safe. Qed.
-Theorem C08_wg_proceeds : forall s seen, GJ s -> g_fixed s = false -> g_pc s = GAwait seen ->
-  g_count s = 0 -> g_pend s = 0 -> g_pc (grun [GW; GW] s) = GDone.
-Proof. exact wg_proceeds. Qed.
 
 (* non-vacuity: two pipes (capacity 1 and 2), two consumers; an interleaving in which pipe 0's
    second send blocks on the full channel and is cancelled, pipe 1 uses the batch path, pipe 0 is
